@@ -94,7 +94,7 @@ def run(ctx):
         ctx, "C09_", sl,
         n_random=60 if quick else 600, rand_len=24,
         rand_weights=dict(rate=6, fit=4, set=2, apply=2, scan=0.05),
-        walk_limit=None if not quick else 150,
+        walk_limit=400 if not quick else 150,
         curves=("syn1", "syn2", "rec1", "syn3"),
         scripted=state_rater_product())
     ctx.assumptions += [
